@@ -521,8 +521,10 @@ func (g *vcgen) loopHead(h *ssa.BasicBlock, phiInit map[*ssa.Phi]string) {
 		g.loopInvs[h] = g.fc.Loops[sig]
 		if _, ok := g.fc.Loops[sig]; !ok && len(g.loopBody) == 1 && len(g.fc.Loops) == 1 {
 			// the only loop of the function against the only loop contract: the condition text was edited
-			for _, inv := range g.fc.Loops {
+			for csig, inv := range g.fc.Loops {
 				g.loopInvs[h] = inv
+				g.loopSig[h] = csig // obligations keep the contract's name for the loop
+				sig = csig
 			}
 		}
 	}
